@@ -29,10 +29,10 @@ PROFILES = ['unknown', 'alltypes', 'flags', 'multiflags', 'boolean', 'text', 'pr
 
 def cases(tier, seed):
     cs = []
-    n = 1 if tier == 'quick' else 12
+    n = 1 if tier == 'quick' else 4
     for prof in PROFILES:
         for b in range({'alltypes': 26, 'flags': 78, 'unknown': 10, 'mix': 16}.get(prof, 6) * n):
-            cs.append({'profile': prof, 'batch': b, 'seed': seed, 'n': 10, 'flips': 90 if tier == 'quick' else 400})
+            cs.append({'profile': prof, 'batch': b, 'seed': seed, 'n': 10, 'flips': 90 if tier == 'quick' else 220})
     return cs
 
 
